@@ -35,6 +35,7 @@ static P_FINISHED_BY_OTHER: AtomicU64 = AtomicU64::new(0);
 static P_ENGINE: [AtomicU64; 6] = [AtomicU64::new(0), AtomicU64::new(0), AtomicU64::new(0), AtomicU64::new(0), AtomicU64::new(0), AtomicU64::new(0)];
 static P_DECODES: AtomicU64 = AtomicU64::new(0);
 static P_CROWDS: AtomicU64 = AtomicU64::new(0);
+static P_DIRECT_POLY: AtomicU64 = AtomicU64::new(0);
 
 const ENGINE_NAMES: [&str; 6] = ["Naive", "NoSimd", "Ssse3", "Avx2", "DefaultEngine", "SlowPoly(NoSimd)"];
 
@@ -54,6 +55,8 @@ struct Job {
     b: usize,
     rounds: usize,
     handover: bool,
+    /// the thread's first act is a direct call of the public `utils::eval_poly` (no engine constructed yet)
+    direct_poly: bool,
     data_seed: u64,
     lose_seed: u64,
 }
@@ -73,6 +76,7 @@ fn draw_job(rng: &mut impl Rng) -> Job {
         b: [2usize, 64, 66][rng.gen_range(0..3usize)],
         rounds: rng.gen_range(1..=2),
         handover: rng.gen_range(0..3u32) == 0,
+        direct_poly: rng.gen_range(0..5u32) == 0,
         data_seed: rng.gen(),
         lose_seed: rng.gen(),
     }
@@ -252,6 +256,25 @@ fn run_job_typed<E: Mk, Enc: RateEncoder<E>, Dec: RateDecoder<E> + Send + 'stati
 
 fn run_job(job: &Job, tx: &shuttle::sync::mpsc::Sender<Continuation>) {
     P_ENGINE[job.engine].fetch_add(1, Ordering::Relaxed);
+    if job.direct_poly {
+        // a foreign codec built on the public primitives: evaluates an erasure locator before any engine exists
+        // on this thread (first touch of LOG_WALSH may race the other threads' first touches of the other tables)
+        let mut erasures: Box<[u16; 65536]> = vec![0u16; 65536].into_boxed_slice().try_into().unwrap();
+        erasures[1] = 1;
+        erasures[5] = 1;
+        reed_solomon_simd::engine::utils::eval_poly(&mut erasures, 8);
+        // the locator vanishes (log 65535 = "zero") nowhere except by convention at the marked points; a cheap
+        // sanity relation: evaluating twice from the same input gives the same answer once the tables exist
+        let first = (erasures[0], erasures[2], erasures[3]);
+        let mut again: Box<[u16; 65536]> = vec![0u16; 65536].into_boxed_slice().try_into().unwrap();
+        again[1] = 1;
+        again[5] = 1;
+        reed_solomon_simd::engine::utils::eval_poly(&mut again, 8);
+        if first != (again[0], again[2], again[3]) {
+            violation(format!("direct eval_poly gives different answers before and after the tables settled ({})", desc(job)));
+        }
+        P_DIRECT_POLY.fetch_add(1, Ordering::Relaxed);
+    }
     macro_rules! with_layer {
         ($E:ty) => {
             match job.layer {
@@ -568,6 +591,7 @@ fn cmd_worker(map: &BTreeMap<String, String>) -> i32 {
         .with("handovers", J::u(P_HANDOVERS.load(Ordering::Relaxed)))
         .with("finished_by_other", J::u(P_FINISHED_BY_OTHER.load(Ordering::Relaxed)))
         .with("crowds", J::u(P_CROWDS.load(Ordering::Relaxed)))
+        .with("direct_poly", J::u(P_DIRECT_POLY.load(Ordering::Relaxed)))
         .with("engines", engines);
     let code = match res {
         Ok(()) => 0,
@@ -703,7 +727,7 @@ fn cmd_check(map: &BTreeMap<String, String>) -> i32 {
         .with("scheduling_steps", J::u(sum("steps")))
         .with("runs_per_hour", J::u(if wall > 0.0 { (execs as f64 / wall * 3600.0) as u64 } else { 0 }))
         .with("faults_fired", J::obj().with("F12.context_switches", J::u(sum("context_switches"))).with("F12.preemptions", J::u(sum("preemptions"))).with("object_handed_over_mid_round", J::u(sum("handovers"))))
-        .with("probes", J::obj().with("encode_rounds", J::u(sum("encode_rounds"))).with("decode_rounds", J::u(sum("decode_rounds"))).with("round_finished_by_a_different_thread", J::u(sum("finished_by_other"))).with("executions_with_17_to_24_threads", J::u(sum("crowds"))).with("threads_per_engine", engines))
+        .with("probes", J::obj().with("encode_rounds", J::u(sum("encode_rounds"))).with("decode_rounds", J::u(sum("decode_rounds"))).with("round_finished_by_a_different_thread", J::u(sum("finished_by_other"))).with("executions_with_17_to_24_threads", J::u(sum("crowds"))).with("threads_starting_with_a_direct_eval_poly_call", J::u(sum("direct_poly"))).with("threads_per_engine", engines))
         .with("components", J::obj().with("real", J::Arr(vec![J::s("all codecs, engines and table initialisers of /repo, built through the shadow manifest with --cfg verif_shuttle")])).with("stub", J::Arr(vec![J::s("std::sync::LazyLock replaced by a shim over shuttle::lazy_static::Lazy (hook H4); threads / mpsc / Mutex of the scenario are shuttle's")])))
         .with("exhaustive", J::Bool(false));
     let evidence = J::obj()
